@@ -7,4 +7,6 @@ sys.path.insert(0, os.path.dirname(os.path.dirname(os.path.abspath(__file__))))
 from vf import env
 env.bootstrap()
 import treadmill.scheduler  # noqa
+from vf import zkfake
+assert zkfake.selftest()
 print('selftest ok: treadmill from', os.path.dirname(treadmill.__file__))
